@@ -959,6 +959,18 @@ def c14(tier):
             if len(run.drift_samples) < 5:
                 run.drift_samples.append({"input": t, "model": b["out"]})
         run.add_event({"props": ["C14arrow"], "rows": o["rows"], "doc": o["doc"], "arrow": b["arrow"]}, {"input": t, "arrow": b["arrow"]})
+    cfgb = simple_cfg("MC_C14b", {"MaxLen": 4 if tier == "quick" else 10, "MaxK": 1}, ["ModelC14b", "Emit"])
+    resb = run.model("MC_Bullet", cfgb)
+    behb = common.tla_json_strings(resb["lines"], "REPLAY")
+    bt = [rows_text(b["rows"]) for b in behb]
+    bo = observe.observe([{"input": t} for t in bt], tag="C14N")
+    for b, t, o in zip(behb, bt, bo):
+        run.replayed += 1
+        if o["out"] != "return" or real_tuples(o["doc"]) != model_tuples(b["out"]):
+            run.drift += 1
+            if len(run.drift_samples) < 5:
+                run.drift_samples.append({"input": t, "model": b["out"]})
+        run.add_event({"props": ["C14bullet"], "rows": o["rows"], "doc": o["doc"], "bullet": b["bullet"]}, {"input": t, "bullet": b["bullet"]})
     cases = []
     lens = list(range(1, maxlen + 1))
     for d, gl in ARROWS.items():
